@@ -567,6 +567,41 @@ def p_error(p):
     raise MOFParseError(msg=msg, parser_token=p)
 
 
+def _create_namespace(p, ns, cim_error):
+    """
+    Create a namespace in the WBEM server, after the CIM repository returned
+    CIM_ERR_INVALID_NAMESPACE (passed in cim_error) for an operation.
+
+    If the CIM repository has no connection to a WBEM server or if the
+    namespace cannot be created there, MOFRepositoryError is raised with the
+    original CIM error.
+    """
+    if p.parser.verbose:
+        p.parser.log(
+            _format("Creating namespace {0} (in MOF compiler)", ns))
+    if p.parser.server is None:
+        raise MOFRepositoryError(
+            msg=_format(
+                "Cannot compile MOF into namespace {0!A} because the "
+                "namespace does not exist in the CIM repository, and cannot "
+                "be created because the CIM repository has no connection to "
+                "a WBEM server",
+                ns),
+            parser_token=p,
+            cim_error=cim_error)
+    try:
+        p.parser.server.create_namespace(ns)
+    except Error as exc:
+        raise MOFRepositoryError(
+            msg=_format(
+                "Cannot compile MOF into namespace {0!A} because the "
+                "namespace does not exist in the CIM repository, and "
+                "creating it in the WBEM server failed: {1}",
+                ns, exc),
+            parser_token=p,
+            cim_error=cim_error)
+
+
 # pylint: disable=unused-argument
 def p_mofSpecification(p):
     """mofSpecification : mofProductionList"""
@@ -623,11 +658,7 @@ def p_mp_createClass(p):
 
                 if errcode == CIM_ERR_INVALID_NAMESPACE:
                     assert not fixedNS  # Should not happen if we created it
-                    if p.parser.verbose:
-                        p.parser.log(
-                            _format("Creating namespace {0} (in MOF compiler)",
-                                    ns))
-                    p.parser.server.create_namespace(ns)
+                    _create_namespace(p, ns, ce)
                     fixedNS = True
                     continue  # Try again to create the class
 
@@ -886,10 +917,7 @@ def p_mp_setQualifier(p):
         p.parser.handle.SetQualifier(qualdecl, namespace=ns)
     except CIMError as ce:
         if ce.status_code == CIM_ERR_INVALID_NAMESPACE:
-            if p.parser.verbose:
-                p.parser.log(
-                    _format("Creating namespace {0} (in MOF compiler)", ns))
-            p.parser.server.create_namespace(ns)
+            _create_namespace(p, ns, ce)
         elif ce.status_code == CIM_ERR_NOT_SUPPORTED:
             if p.parser.verbose:
                 p.parser.log(
@@ -1126,10 +1154,7 @@ def p_qualifier(p):
                         qname),
                     parser_token=p,
                     cim_error=ce)
-            if p.parser.verbose:
-                p.parser.log(
-                    _format("Creating namespace {0} (in MOF compiler)", ns))
-            p.parser.server.create_namespace(ns)
+            _create_namespace(p, ns, ce)
             quals = None
 
         if quals:
